@@ -85,7 +85,7 @@ class BaseMethod(object):
 
     def assert_features(self, features):
         avail = self.get_supported_features()
-        for key in ["udp", "dns", "ipv6", "ipv4", "user"]:
+        for key in ["udp", "dns", "ipv6", "ipv4", "user", "group"]:
             if getattr(features, key) and not getattr(avail, key):
                 raise Fatal(
                     "Feature %s not supported with method %s." %
